@@ -484,6 +484,12 @@ class PropBase:
 
     # -- driver
     def run(self):
+        # runs of the same property share coq/Gen/* and build/ext/<pid>: serialise them
+        with BuildLock('run_' + self.ID):
+            self.t0 = time.time()
+            return self._run()
+
+    def _run(self):
         from py2coq import Untranslatable
         pid = self.ID
         gen_meta = []
